@@ -1,16 +1,72 @@
-(* Proofs/GenAgreeTypes.v — the Gallina function tools/go2v translated statement by statement
-   from compose/utils.go:checkAssignable (Gen/Assignable.v) is extensionally the
+(* Proofs/GenAgreeTypes.v — the Gallina functions tools/go2v translated statement by statement
+   from compose/utils.go:checkAssignable (Gen/Assignable.v) are extensionally the
    [check_assignable] of Model/Types.v that every C07 theorem is about: for every universe and
    every pair of (possibly nil) types, and whatever an unknown predicate would answer — so the
-   generated function may not consult one.  A reordered test, a dropped nil check, a changed
-   result constant or a new reflect predicate in the source makes this stop compiling. *)
-From Eino Require Import Base.Util Model.Types Model.TypesGenLib.
+   generated function may consult one only where its answer does not matter.
+
+   Two readings of the same source (one translation, two vocabularies):
+   * [check_assignable] over Model/TypesGenLib.v (reflect operations totalised);
+   * [check_assignable_p] over Model/TypesGenLibP.v (a method called on the nil reflect.Type and
+     Implements with a nil or non-interface argument PANIC; && and || evaluate what Go evaluates):
+     the translated function returns [Some] of the model's answer — it never panics.
+
+   The proofs do not follow the syntax of the translated function: both sides are reduced to
+   their atomic predicates (identity of the two types, kind of each, Implements in each
+   direction, the unknown predicates) and every combination of truth values is computed, with
+   what the atoms know of each other (identical types have the same kind and implement each
+   other; identity is symmetric).  So any restructuring of the decision function that keeps its
+   meaning keeps this file compiling (nested tests folded into one condition, reordered
+   independent tests, De Morgan, if / else if / switch, early returns, an arm moved into a
+   helper), while a changed answer for some combination, a dropped nil test, an Implements call
+   moved in front of its guard or a new reflect predicate that matters makes it stop compiling. *)
+From Eino Require Import Base.Util Model.Types Model.TypesGenLib Model.TypesGenLibP Proofs.TypesLattice Proofs.TypesLatticeX.
 From Eino Require Gen.Assignable.
+
+Lemma implements_refl : forall u t, implements u t t = true.
+Proof. intros u t; unfold implements; apply subsetN_spec; auto. Qed.
+
+(* split the innermost scrutinee that is not itself a conditional, until none is left *)
+Ltac ga_leaves :=
+  repeat match goal with
+  | |- context [if ?b then _ else _] =>
+      lazymatch b with
+      | context [if _ then _ else _] => fail
+      | context [match _ with _ => _ end] => fail
+      | _ => destruct b eqn:?
+      end
+  | |- context [match ?b with Some _ => _ | None => _ end] =>
+      lazymatch b with
+      | context [if _ then _ else _] => fail
+      | context [match _ with _ => _ end] => fail
+      | _ => destruct b eqn:?
+      end
+  end.
+
+Ltac ga_decide :=
+  cbv [rt_is_nil rt_eq rt_kind_is rt_implements oty_eqb
+       pb_const pb_and pb_or pb_not pb_beq pb_if rtp_is_nil rtp_eq rtp_kind_is rtp_implements rtp_unk
+       String.eqb Ascii.eqb Bool.eqb String.append andb orb negb];
+  try reflexivity;
+  match goal with
+  | i : ty, a : ty |- _ =>
+      rewrite ?(ty_eqb_sym i a);
+      destruct (ty_eqb a i) eqn:Eai;
+      [ apply ty_eqb_eq in Eai; subst a; rewrite ?implements_refl | ];
+      ga_leaves; try reflexivity; try congruence
+  | _ => ga_leaves; try reflexivity; try congruence
+  end.
 
 Theorem gen_check_assignable_agrees : forall unk u input arg,
   Gen.Assignable.check_assignable unk u input arg = Model.Types.check_assignable u input arg.
 Proof.
-  intros unk u [i|] [a|]; unfold Gen.Assignable.check_assignable, check_assignable; simpl; try reflexivity.
+  intros unk u [i|] [a|]; unfold Gen.Assignable.check_assignable, check_assignable; ga_decide.
+Qed.
+
+(* the panic-aware reading: the function returns the model's answer and never panics *)
+Theorem gen_check_assignable_no_panic : forall unk u input arg,
+  Gen.Assignable.check_assignable_p unk u input arg = Some (Model.Types.check_assignable u input arg).
+Proof.
+  intros unk u [i|] [a|]; unfold Gen.Assignable.check_assignable_p, check_assignable; ga_decide.
 Qed.
 
 (* non-vacuity: the generated function distinguishes the three answers *)
@@ -20,4 +76,14 @@ Example gen_assignable_three_answers :
   Gen.Assignable.check_assignable nounk u (Some (TConc 1)) (Some (TIface 1)) = Must
   /\ Gen.Assignable.check_assignable nounk u (Some (TIface 1)) (Some (TConc 1)) = May
   /\ Gen.Assignable.check_assignable nounk u (Some (TConc 1)) (Some (TConc 2)) = MustNot.
+Proof. repeat split; reflexivity. Qed.
+
+(* non-vacuity of the vocabulary: the operations the translated function guards do panic *)
+Example gen_assignable_vocabulary_panics :
+  let u := {| u_conc := [(1%N, [7%N])]; u_iface := [(1%N, [7%N])] |} in
+  let nounk := fun _ _ _ => false in
+  rtp_kind_is nounk "Interface" None = None
+  /\ rtp_implements u (Some (TIface 1)) (Some (TConc 1)) = None
+  /\ rtp_implements u (Some (TConc 1)) (Some (TIface 1)) = Some true
+  /\ pb_and (Some false) None = Some false /\ pb_and None (Some false) = None.
 Proof. repeat split; reflexivity. Qed.
